@@ -82,6 +82,24 @@ fn main() {
                 Err(p) => p,
             }
         }
+        ["icc", hexs] => {
+            let Some(bytes) = unhex(hexs) else { return "bad-op".into() };
+            match catch(|| {
+                let image = JxlImage::builder()
+                    .pool(JxlThreadPool::none())
+                    .read(std::io::Cursor::new(&bytes[..]));
+                match image {
+                    Ok(i) => match i.original_icc() {
+                        Some(p) => format!("ok {}", hex(p)),
+                        None => "none".to_string(),
+                    },
+                    Err(e) => format!("err {}", err_class(&*e)),
+                }
+            }) {
+                Ok(s) => s,
+                Err(p) => p,
+            }
+        }
         _ => "bad-op".into(),
     });
 }
